@@ -12,6 +12,9 @@
 //	mark:<file>        create file (sentinel that the command ran)
 //	sleep:<ms>         sleep
 //	block              never exit
+//	spawnhold:<ms>     start a child process (this program, sleeping ms) that inherits stdout and
+//	                   stderr and is not waited for: it keeps those descriptors open after this
+//	                   process is gone (a background job of a shell)
 //	exit:<n>           exit with status n (default 0 at end)
 //	kill:<sig>         kill self with signal number
 //
@@ -23,6 +26,7 @@ import (
 	"fmt"
 	"io"
 	"os"
+	"os/exec"
 	"strconv"
 	"strings"
 	"syscall"
@@ -87,6 +91,10 @@ func main() {
 		case "sleep":
 			ms, _ := strconv.Atoi(arg)
 			time.Sleep(time.Duration(ms) * time.Millisecond)
+		case "spawnhold":
+			child := exec.Command(os.Args[0], "sleep:"+arg)
+			child.Stdout, child.Stderr = os.Stdout, os.Stderr
+			_ = child.Start()
 		case "block":
 			for {
 				time.Sleep(time.Hour)
